@@ -307,16 +307,36 @@ func (m *BasicMutableWorld) RemoveTag(id b6.FeatureID, key string) error {
 func NewMutableWorldFromSource(o *BuildOptions, source FeatureSource) (b6.World, error) {
 	w := NewBasicMutableWorld()
 	var lock sync.Mutex
+	// When the source is read by several goroutines, a feature can arrive
+	// before the features it refers to, and is rejected. Those are added
+	// again once everything has been read.
+	var rejected []Feature
 	f := func(feature Feature, g int) error {
 		feature = feature.Clone()
 		lock.Lock()
-		w.AddFeature(feature)
+		if err := w.AddFeature(feature); err != nil {
+			rejected = append(rejected, feature)
+		}
 		lock.Unlock()
 		return nil
 	}
 	options := ReadOptions{Goroutines: o.Cores}
-	err := source.Read(options, f, context.Background())
-	return w, err
+	if err := source.Read(options, f, context.Background()); err != nil {
+		return w, err
+	}
+	for len(rejected) > 0 {
+		var remaining []Feature
+		for _, feature := range rejected {
+			if err := w.AddFeature(feature); err != nil {
+				remaining = append(remaining, feature)
+			}
+		}
+		if len(remaining) == len(rejected) {
+			break // Invalid whatever the order, as in a build with one goroutine
+		}
+		rejected = remaining
+	}
+	return w, nil
 }
 
 type modifiedTag struct {
